@@ -51,12 +51,15 @@ def server_ctx(name, tls12=False) -> ssl.SSLContext:
 
 
 @functools.lru_cache(None)
-def client_ctx(cert=None) -> ssl.SSLContext:
-    """Scripted raw client context (accepts anything; optional client cert)."""
+def client_ctx(cert=None, tls12=False) -> ssl.SSLContext:
+    """Scripted raw client context (accepts anything; optional client cert; tls12=True: a
+    client that only speaks TLS 1.2, the servers' configured minimum)."""
     ctx = ssl.SSLContext(ssl.PROTOCOL_TLS_CLIENT)
     ctx.check_hostname = False
     ctx.verify_mode = ssl.CERT_NONE
     ctx.minimum_version = ssl.TLSVersion.TLSv1_2
+    if tls12:
+        ctx.maximum_version = ssl.TLSVersion.TLSv1_2
     if cert:
         ctx.load_cert_chain(crt(cert), key(cert))
     return ctx
